@@ -217,7 +217,8 @@ impl<'a> Machine<'a> {
             | Op::Unique { pers }
             | Op::LatticeFold { pers }
             | Op::LatticeReduce { pers }
-            | Op::State { pers } => {
+            | Op::State { pers }
+            | Op::StateBy { pers } => {
                 if tick1(pers) {
                     *st = St::None;
                 }
@@ -708,6 +709,35 @@ impl<'a> Machine<'a> {
                 self.st[i] = St::Acc(acc.clone());
                 vec![items, vec![acc]]
             }
+            // state_by: "with a closure to map the input to the state lattice"; [items] "are of the same
+            // type as the inputs", emitted when they changed the state; [state] as for `state`.
+            Op::StateBy { .. } => {
+                let mut acc = match &self.st[i] {
+                    St::Acc(a) => a.clone(),
+                    _ => Val::Mx(i64::MIN),
+                };
+                let mut items = vec![];
+                for x in &ins[0] {
+                    if lattice_merge(&mut acc, &Val::Mx(x.int())) {
+                        items.push(x.clone());
+                    }
+                }
+                self.st[i] = St::Acc(acc.clone());
+                vec![items, vec![acc]]
+            }
+            // "Takes an input stream of enum instances and splits them into their variants."
+            // (each output carries the tuple of the variant's fields)
+            Op::DemuxEnum => {
+                let mut ports = vec![vec![], vec![], vec![]];
+                for x in &ins[0] {
+                    let t = x.tup();
+                    let tag = t[0].int() as usize;
+                    ports[tag].push(Val::T(t[1..].to_vec()));
+                }
+                ports
+            }
+            // "Emits a single unit `()` at the start of the first tick."
+            Op::Initialize => one(if self.srciter_done { vec![] } else { vec![Val::T(vec![])] }),
             Op::ForEach { .. } | Op::Null => vec![],
         }
     }
@@ -837,6 +867,14 @@ pub fn map_fn(f: &MapFn, x: &Val) -> Val {
         MapFn::ToMax => Val::Mx(x.int()),
         MapFn::FromMax => Val::I(x.int()),
         MapFn::ToSet => Val::S([Val::I(x.int())].into_iter().collect()),
+        MapFn::ToShape => {
+            let v = x.int();
+            match v.rem_euclid(3) {
+                0 => Val::T(vec![Val::I(0), Val::I(v)]),
+                1 => Val::T(vec![Val::I(1), Val::I(v), Val::I(v + 1)]),
+                _ => Val::T(vec![Val::I(2), Val::I(v), Val::I(v * 2)]),
+            }
+        }
     }
 }
 
